@@ -425,8 +425,9 @@ theorem cubic_former_defect_fixed (F : CubicFns α)
     (-1 : α) * (-1) * (-1) + 0 * ((-1) * (-1)) + 0 * (-1) + 1 = 0 :=
   Roots.cubic_former_defect_fixed F hs hcs hpow
 
-/-- `solveNormalizedCubic`, D ≤ 0 (complex intermediates): two (D = 0) or three (D < 0) values are
-written and each of them is a root -/
+/-- `solveNormalizedCubic`, D ≤ 0 (complex intermediates), for the algorithm with an IDEAL √3 (`h3`; the source's rational
+literal does not satisfy it - for the code see `solveNormalizedCubic_complex_any_sqrt3` and
+`gen_solveNormalizedCubic_three_literal`): two (D = 0) or three (D < 0) values are written and each of them is a root -/
 theorem solveNormalizedCubic_complex_roots (F : CubicFns α) (r s t : α) (w : α)
     (hD : cubicD r s t ≤ 0) (hnt : ¬ (cubicD r s t = 0 ∧ cubicP r s / 3 = 0))
     (hcsqrt : F.csqrt (cubicD r s t, 0) = (0, w) ∧ w * w = -cubicD r s t)
@@ -463,8 +464,9 @@ theorem solveNormalizedCubic_real_unique (F : CubicFns α) (r s t : α) (hD : 0 
   obtain ⟨x, hx, hroot⟩ := Roots.solveNormalizedCubic_real F r s t hD hs hcs hpow
   exact ⟨x, hx, fun y => ⟨fun hy => Roots.cubic_unique_root r s t x y hD hroot hy, fun h => by rw [h]; exact hroot⟩⟩
 
-/-- `solveNormalizedCubic`, D < 0: count 3, the three values written are pairwise DISTINCT, the cubic factors as
-(y - x0)(y - x1)(y - x2), so they are exactly the real roots.  (Any cube root the library returns will do.) -/
+/-- `solveNormalizedCubic`, D < 0, IDEAL √3 (`h3` — not satisfiable by the source's literal; about the algorithm, see
+`gen_solveNormalizedCubic_three_literal` for the code): count 3, the three values written are pairwise DISTINCT, the cubic
+factors as (y - x0)(y - x1)(y - x2), so they are exactly the real roots.  (Any cube root the library returns will do.) -/
 theorem solveNormalizedCubic_three_distinct (F : CubicFns α) (r s t : α) (w : α)
     (hD : cubicD r s t < 0)
     (hcsqrt : F.csqrt (cubicD r s t, 0) = (0, w) ∧ w * w = -cubicD r s t)
@@ -475,8 +477,8 @@ theorem solveNormalizedCubic_three_distinct (F : CubicFns α) (r s t : α) (w : 
       (∀ y, y * y * y + r * (y * y) + s * y + t = 0 ↔ y = x0 ∨ y = x1 ∨ y = x2) :=
   Roots.solveNormalizedCubic_three F r s t w hD hcsqrt hcube h3
 
-/-- `solveNormalizedCubic`, D = 0, p ≠ 0 (a double and a simple root): count 2, the two values written are DISTINCT and
-exactly the real roots — provided `pow` returns the PRINCIPAL complex cube root (closed first quadrant) and the literal
+/-- `solveNormalizedCubic`, D = 0, p ≠ 0 (a double and a simple root), IDEAL √3 (`h3`, `h3pos`; about the algorithm):
+count 2, the two values written are DISTINCT and exactly the real roots — provided `pow` returns the PRINCIPAL complex cube root (closed first quadrant) and the literal
 `sqrt3` is positive.  (With another cube root the code would write the double root twice; the principal-value
 convention is part of what the clause rests on, and it is checked on the real code by the count obligation.) -/
 theorem solveNormalizedCubic_double_root (F : CubicFns α) (r s t : α) (w : α)
@@ -674,6 +676,75 @@ theorem gen_solveNormalizedCubic_one_root (sqrt : α → α) (pow copysign : α 
       ∀ y, y * y * y + r * (y * y) + s * y + t = 0 ↔ y = x := by
   obtain ⟨x, hx, hall⟩ := solveNormalizedCubic_real_unique (genF sqrt pow copysign cpow csqrt) r s t hD hs hcs hpow
   exact ⟨x, by rw [gen_solveNormalizedCubic, hx]; rfl, hall⟩
+/-! ### the D ≤ 0 arm of the EXTRACTED solver, with the literal the source really uses
+
+`solveNormalizedCubic_complex_roots`, `_three_distinct`, `_double_root` assume `F.sqrt3 * F.sqrt3 = 3`; the extracted code
+uses the rational literal `genF.sqrt3`, for which that hypothesis is false, so those three theorems describe the
+algorithm with an ideal √3 and cannot be instantiated at the code.  What holds for the code, for ANY value of the
+literal: the first value written is an exact root, the three values sum to -r, and the other two have the exact
+residuals below, proportional to `literal² - 3`; with `sqrt3_literal` that is at most 10^-16 · |x0 - xi| · (x1 - x2)². -/
+
+/-- model form, any `F.sqrt3` (no hypothesis on it): exact residuals of the values the D ≤ 0 arm writes -/
+theorem solveNormalizedCubic_complex_any_sqrt3 (F : CubicFns α) (r s t : α) (w : α)
+    (hD : cubicD r s t ≤ 0) (hnt : ¬ (cubicD r s t = 0 ∧ cubicP r s / 3 = 0))
+    (hcsqrt : F.csqrt (cubicD r s t, 0) = (0, w) ∧ w * w = -cubicD r s t)
+    (hcube : cmul (cmul (cubicU F r s t) (cubicU F r s t)) (cubicU F r s t) = (-(cubicQ r s t) / 2, w)) :
+    ∃ a b x0 x1 x2, cubicU F r s t = (a, b) ∧
+      solveNormalizedCubic F r s t = (if cubicD r s t == 0 then (2, [x0, x1]) else (3, [x0, x1, x2])) ∧
+      x0 * x0 * x0 + r * (x0 * x0) + s * x0 + t = 0 ∧
+      x1 * x1 * x1 + r * (x1 * x1) + s * x1 + t = -((x0 - x1) * (b * b) * (F.sqrt3 * F.sqrt3 - 3)) ∧
+      x2 * x2 * x2 + r * (x2 * x2) + s * x2 + t = -((x0 - x2) * (b * b) * (F.sqrt3 * F.sqrt3 - 3)) ∧
+      x0 + x1 + x2 = -r ∧ (x1 - x2) * (x1 - x2) = 4 * (b * b) * (F.sqrt3 * F.sqrt3) ∧
+      cubicD r s t = -(b * b * ((3 * a * a - b * b) * (3 * a * a - b * b))) := by
+  obtain ⟨a, b, x0, x1, x2, hu, e0, e1, e2, hform, f0, f1, f2, hsum, d01, d02, d12, hDab⟩ :=
+    Roots.cubicComplex_residuals F r s t w hD hnt hcsqrt hcube
+  refine ⟨a, b, x0, x1, x2, hu, ?_, f0, by rw [f1, d01], by rw [f2, d02], hsum, by rw [d12]; ring, hDab⟩
+  rw [solveNormalizedCubic_cases, if_neg (by simpa using hnt), if_neg (not_lt.mpr hD)]
+  exact hform
+
+/-- the EXTRACTED `solveNormalizedCubic`, D < 0, with the source's literal: count 3; slot 0 is an exact root; the three
+slots sum to -r; slots 1 and 2 are distinct and are roots up to the stated residual (the literal is √3 to 2^-52) -/
+theorem gen_solveNormalizedCubic_three_literal (sqrt : α → α) (pow copysign : α → α → α) (cpow : α → α → α → α × α)
+    (csqrt : α → α → α × α) (r s t w : α) (hD : cubicD r s t < 0)
+    (hcsqrt : csqrt (cubicD r s t) 0 = (0, w) ∧ w * w = -cubicD r s t)
+    (hcube : cmul (cmul (cubicU (genF sqrt pow copysign cpow csqrt) r s t) (cubicU (genF sqrt pow copysign cpow csqrt) r s t))
+        (cubicU (genF sqrt pow copysign cpow csqrt) r s t) = (-(cubicQ r s t) / 2, w)) :
+    ∃ x0 x1 x2, Gen.Roots.solveNormalizedCubic sqrt pow copysign cpow csqrt r s t = (3, x0, x1, x2) ∧
+      x0 * x0 * x0 + r * (x0 * x0) + s * x0 + t = 0 ∧ x0 + x1 + x2 = -r ∧ x1 ≠ x2 ∧
+      |x1 * x1 * x1 + r * (x1 * x1) + s * x1 + t| ≤ |x0 - x1| * ((x1 - x2) * (x1 - x2)) / 10000000000000000 ∧
+      |x2 * x2 * x2 + r * (x2 * x2) + s * x2 + t| ≤ |x0 - x2| * ((x1 - x2) * (x1 - x2)) / 10000000000000000 := by
+  have hnt : ¬ (cubicD r s t = 0 ∧ cubicP r s / 3 = 0) := fun h => hD.ne h.1
+  obtain ⟨a, b, x0, x1, x2, hu, hres, f0, f1, f2, hsum, hsq, hDab⟩ :=
+    solveNormalizedCubic_complex_any_sqrt3 (genF sqrt pow copysign cpow csqrt) r s t w hD.le hnt hcsqrt hcube
+  have hS : (genF sqrt pow copysign cpow csqrt).sqrt3 = (3900231685776981 : α) / 2251799813685248 := rfl
+  rw [hS] at f1 f2 hsq
+  have hlo : (299 : α) / 100 < 3900231685776981 / 2251799813685248 * (3900231685776981 / 2251799813685248) := by norm_num
+  have hε : |(3900231685776981 : α) / 2251799813685248 * (3900231685776981 / 2251799813685248) - 3| ≤ 1 / 1000000000000000 := by
+    rw [abs_le]; constructor <;> norm_num
+  generalize (3900231685776981 : α) / 2251799813685248 * (3900231685776981 / 2251799813685248) = S2 at f1 f2 hsq hlo hε
+  have hb : b ≠ 0 := by
+    intro hb; rw [hb] at hDab; rw [hDab] at hD; simp at hD
+  have hbb : 0 < b * b := mul_self_pos.mpr hb
+  -- |residual_i| = |x0 - xi| · b² · |S2 - 3|  and  (x1 - x2)² = 4 b² S2  with  |S2 - 3| ≤ 10^-15 ≤ 4 S2 / 10^16
+  have key : ∀ d : α, |-(d * (b * b) * (S2 - 3))| ≤ |d| * ((x1 - x2) * (x1 - x2)) / 10000000000000000 := by
+    intro d
+    rw [abs_neg, abs_mul, abs_mul, abs_of_pos hbb, hsq]
+    have hd : 0 ≤ |d| := abs_nonneg d
+    have h1 : |S2 - 3| ≤ 4 * S2 / 10000000000000000 := by linarith
+    have h2 : 0 ≤ |d| * (b * b) := mul_nonneg hd hbb.le
+    calc |d| * (b * b) * |S2 - 3| ≤ |d| * (b * b) * (4 * S2 / 10000000000000000) := mul_le_mul_of_nonneg_left h1 h2
+      _ = |d| * (4 * (b * b) * S2) / 10000000000000000 := by ring
+  refine ⟨x0, x1, x2, ?_, f0, hsum, ?_, ?_, ?_⟩
+  · rw [gen_solveNormalizedCubic, hres]; simp [hD.ne, slots3]
+  · intro h
+    have h0 : (x1 - x2) * (x1 - x2) = 0 := by rw [h]; ring
+    rw [hsq] at h0
+    have : 0 < 4 * (b * b) * S2 := by
+      have : (0 : α) < S2 := by linarith
+      positivity
+    linarith
+  · rw [f1]; exact key _
+  · rw [f2]; exact key _
 end Link
 
 /-- concrete library functions over ℚ for the non-vacuity examples -/
@@ -758,6 +829,28 @@ theorem nonvacuity_cubic_three_distinct : ∃ x0 x1 x2 : ℝ,
         · linear_combination (-8 / 27 * Real.sqrt 3 : ℝ) * h3)
       h3
   exact ⟨x0, x1, x2, he, h01, h12, h02⟩
+
+/-- non-vacuity of `gen_solveNormalizedCubic_three_literal` over ℝ: the EXTRACTED solver on x³ - 7x + 6 with the exact complex
+square / cube roots as library functions and its own rational literal for √3: slot 0 is the root 2 exactly, slots 1 and 2
+are the roots -3 and 1 up to the literal's error -/
+theorem nonvacuity_gen_three_literal : ∃ x0 x1 x2 : ℝ,
+    Gen.Roots.solveNormalizedCubic Real.sqrt (fun _ _ => 0) (fun _ _ => 1) (fun _ _ _ => (1, 2 * Real.sqrt 3 / 3))
+      (fun _ _ => (0, 10 * Real.sqrt 3 / 9)) 0 (-7) 6 = (3, x0, x1, x2) ∧
+    x0 * x0 * x0 + 0 * (x0 * x0) + -7 * x0 + 6 = 0 ∧ x0 + x1 + x2 = -0 ∧ x1 ≠ x2 := by
+  have h3 : Real.sqrt 3 * Real.sqrt 3 = 3 := Real.mul_self_sqrt (by norm_num)
+  have hD : cubicD (0 : ℝ) (-7) 6 = -100 / 27 := by unfold cubicD cubicP cubicQ; norm_num
+  have hq : cubicQ (0 : ℝ) (-7) 6 = 6 := by unfold cubicQ; norm_num
+  obtain ⟨x0, x1, x2, he, f0, hs, hne, _, _⟩ :=
+    gen_solveNormalizedCubic_three_literal Real.sqrt (fun _ _ => 0) (fun _ _ => 1) (fun _ _ _ => (1, 2 * Real.sqrt 3 / 3))
+      (fun _ _ => (0, 10 * Real.sqrt 3 / 9)) 0 (-7) 6 (10 * Real.sqrt 3 / 9)
+      (by rw [hD]; norm_num)
+      ⟨rfl, by rw [hD]; linear_combination (100 / 81 : ℝ) * h3⟩
+      (by
+        rw [hq]; simp only [cubicU, genF, cmul, Prod.mk.injEq]
+        constructor
+        · linear_combination (-4 / 3 : ℝ) * h3
+        · linear_combination (-8 / 27 * Real.sqrt 3 : ℝ) * h3)
+  exact ⟨x0, x1, x2, he, f0, hs, hne⟩
 
 /-- non-vacuity of `solveNormalizedCubic_double_root` over ℝ (the (2, [x0, x1]) case): x³ - 3x + 2 = (x - 1)²(x + 2);
 p = -3, q = 2, D = 0, sqrt (D) = (0, 0), z = -1, principal cube root u = (1/2, √3/2); the code writes 1 and -2 -/
